@@ -1,7 +1,7 @@
 (* RunEngine.v — executable runner for engine sessions (harness/src/eng.rs):
    grammar + lexemes + vocabulary + a list of Matcher operations. *)
 From Coq Require Import String.
-From LLG Require Import Base Sx Svob Trie WalkM Regex Lexer Earley Engine TokParser.
+From LLG Require Import Base Sx Svob Trie WalkM Regex Substring Lexer Earley Engine TokParser.
 Open Scope string_scope.
 Open Scope N_scope.
 
@@ -34,6 +34,7 @@ Fixpoint rx_of_sx_fuel (fuel : nat) (x : sx) : regex :=
         let hi := as_z (nth_sx a 2) in
         Rep (rx_of_sx_fuel f (nth_sx a 0)) (as_n (nth_sx a 1))
             (if (hi <? 0)%Z then None else Some (Z.to_N hi))
+      else if is "substr" then substring_rx (map as_bytes a)
       else if is "eps" then Eps
       else Empty
   end.
